@@ -179,8 +179,16 @@ def check_script(script, rec, do_valgrind):
                 rec.violation("valgrind:definitely-lost:" + leak_context(script, obs), verr[-1500:], wit)
                 bad = True
             elif "uninitialised value" in verr and not bad:
-                rec.violation("valgrind:uninitialised-value", verr[-1500:], wit)
-                bad = True
+                # only uses inside the generated module count: the driver's dump prints every persistent scalar,
+                # also those the method has not assigned yet (their phase has not run), which is the harness
+                # reading uninitialised storage, not the generated code
+                blocks = re.split(r"\n==\d+== \n", verr)
+                mine = [b for b in blocks if "uninitialised value" in b and "vfmod.f90" in b]
+                if mine:
+                    rec.violation("valgrind:uninitialised-value", mine[0][-1500:], wit)
+                    bad = True
+                else:
+                    rec.count("valgrind_uninitialised_only_in_driver_dump")
     return not bad
 
 
